@@ -15,7 +15,7 @@ ID = "C16"
 LEVEL = "exploration"
 BUDGET = {"quick": {"cases": 5000}, "thorough": {"cases": 80000, "soft_deadline": 1500}}
 RULE = (
-    "case = (network n<=8 [10] with generated variable names/order, history of 1-7 operations of every kind, per step a generated "
+    "case = (network n<=8 [10] with generated variable names/order, configuration incl. zero-valued fields, history of 1-7 operations of every kind, per step a generated "
     "choice of pickle round-trip and/or reclaim_node_data on the SUBJECT diagram); oracle = differential: a SHADOW diagram executes "
     "the same calls and is never serialized/reclaimed; after every step node ids, spaces, edges, motif lists, depths, flags, "
     "cached seeds/candidates/sets (read with compute=False) and return values (incl. exception type) must be identical, and at the "
@@ -45,6 +45,22 @@ def _case(draw, max_n):
         "steps": steps,
         "aux": aux,
         "control_sp": draw(ops._target(n)),
+        "config": draw(
+            st.one_of(
+                st.just({}),
+                st.just({}),
+                st.fixed_dictionaries(
+                    {},
+                    optional={
+                        "nfvs_size_threshold": st.sampled_from((0, 1, 2)),
+                        "minimum_simulation_budget": st.sampled_from((0, 1, 10)),
+                        "retained_set_optimization_threshold": st.sampled_from((0, 1, 2, 5)),
+                        "attractor_candidates_limit": st.sampled_from((2, 3, 5, 20)),
+                        "max_motifs_per_node": st.sampled_from((3, 5, 20)),
+                    },
+                ),
+            )
+        ),
     }
 
 
@@ -53,7 +69,7 @@ def strategy(tier):
 
 
 def describe(case):
-    return f"{bnet_text(case['net'])} | " + "; ".join(f"{ops.fmt_step(s)}[{a}]" for s, a in zip(case["steps"], case["aux"]))
+    return f"{bnet_text(case['net'])} | config={case.get('config')} | " + "; ".join(f"{ops.fmt_step(s)}[{a}]" for s, a in zip(case["steps"], case["aux"]))
 
 
 def _observe(sd, reclaimed_subject):
@@ -128,8 +144,8 @@ def run_case(case) -> Result:
     nontriv = False
     reclaimed = False
     try:
-        subj = ops.History(net, via="api")
-        shad = ops.History(net, via="api")
+        subj = ops.History(net, case.get("config") or {}, via="api")
+        shad = ops.History(net, case.get("config") or {}, via="api")
         for k, (s, aux) in enumerate(zip(case["steps"], case["aux"])):
             outs = []
             for h in (subj, shad):
